@@ -207,6 +207,11 @@ impl UploadProvider for Dropbox {
     }
 
     fn max_request_size(&self) -> Option<u64> {
+        #[cfg(vsb_verif)]
+        if let Some(size) = std::env::var("VSB_VERIF_MAX_REQUEST_SIZE").ok().and_then(|value| value.parse().ok()) {
+            return Some(size);
+        }
+
         Some(150 * 1024 * 1024)
     }
 
